@@ -10,7 +10,7 @@ from fiddle._src import daglish
 from fiddle._src import diffing
 
 from harness import common, l2, c02, c06
-from harness.common import Failure, Result, Stream, g_list, g_N, g_Z
+from harness.common import Failure, Result, Stream, g_list, g_pair, g_N, g_Z
 
 COQ_TARGETS = ["theories/C10Check.vo", "theories/AnchorsDiff.vo"]
 TRUSTED_BASE = ["the alignment heuristics (which depend on len(repr(value))) are not modelled: the Coq model covers "
@@ -224,6 +224,48 @@ def one_pair(rng, res, intern, stream, label):
     res.samples.append({"kind": kind, "old": repr(old)[:300], "new": repr(new)[:300], "changes": len(diff.changes)})
 
 
+def roundtrip_case(rng, res, intern, rt_stream, label):
+  """The whole of build_diff + apply_diff against the model: the alignment the real builder ends with is
+  handed to DiffBuild.patch, which must turn old into new and agree with the real result."""
+  old, new, kind = gen_pair(rng)
+  if "shares-identity" in kind or has_positional(old, new):
+    return
+  replay = {"label": label, "kind": kind, "old": repr(old)[:1000], "new": repr(new)[:1000]}
+  try:
+    alignment = diffing.align_heuristically(old, new)
+    diff = diffing.build_diff_from_alignment(alignment)
+    target = copy.deepcopy(old)
+    diffing.apply_diff(diff, target)
+  except Exception as e:  # pylint: disable=broad-except
+    res.count("rt-skipped:" + type(e).__name__)
+    return
+  res.evaluations += 1
+  res.count("roundtrip")
+  try:
+    enc = l2.Encoder(intern)
+    r_old = enc.ref(old)
+    r_new = enc.ref(new)
+    pairs = []
+    for av in alignment.aligned_values():
+      if id(av.old_value) in enc.ids and id(av.new_value) in enc.ids:
+        pairs.append(g_pair(common.g_nat(enc.ids[id(av.old_value)]), common.g_nat(enc.ids[id(av.new_value)])))
+      elif enc.atom(av.old_value) is not None and enc.atom(av.old_value) == enc.atom(av.new_value):
+        continue     # aligned leaf objects (functions, classes ...) are equal atoms of the model
+      else:
+        res.count("rt-skipped:aligned-object-not-encoded")
+        return
+    heap = enc.heap()
+    enc2 = l2.Encoder(intern)
+    r_after = enc2.ref(target)
+    enc.fns.update(enc2.fns)
+    rt_stream.add(f"(mkrt {enc.sigenv()} {heap} {r_old} {r_new} {g_list(pairs)} {enc2.heap()} {r_after})",
+                  meta=replay)
+    if diff.changes:
+      res.nontrivial({"rt": heap, "o": r_old, "n": r_new})
+  except (TypeError, l2.Cyclic, ValueError, AttributeError) as e:
+    res.count("rt-unencodable:" + type(e).__name__)
+
+
 def run(tier: str, seed: int) -> Result:
   rng = random.Random(seed * 295075147 + 10)
   res = Result()
@@ -236,7 +278,13 @@ def run(tier: str, seed: int) -> Result:
                   "From Fiddle Require Import PySlice Sig ArgStore PyCall Heap Traverse Tags History Diff C10Check.",
                   "C10Check.case", "C10Check.check_case")
   res.streams.append(stream)
+  rt_stream = Stream("c10_roundtrip",
+                     "From Fiddle Require Import PySlice Sig ArgStore PyCall Heap Traverse Tags History Diff DiffBuild C10Check.",
+                     "C10Check.rt_case", "C10Check.check_rt")
+  res.streams.append(rt_stream)
   n = 400 if tier == "quick" else 12000
   for i in range(n):
     one_pair(rng, res, intern, stream, f"pair#{i}")
+  for i in range(n):
+    roundtrip_case(rng, res, intern, rt_stream, f"rt#{i}")
   return res
